@@ -27,6 +27,12 @@ theorem interceptTimedOut_iff (height : Nat) (h : IcHtlc) : interceptTimedOut he
 /-- the production reload path starts from the persisted map -/
 theorem interceptsFromDisk_legacy : interceptsFromDisk false = true := by rfl
 
+/-- the reconstruct reload path starts from an empty map -/
+theorem interceptsFromDisk_reconstruct : interceptsFromDisk true = false := by rfl
+
+theorem reloadI_reconstruct (d : IcMgr) : reloadI true d = { held := [], queue := d.queue } := by
+  simp [reloadI, interceptsFromDisk_reconstruct, regen]
+
 theorem any_id_iff (q : List IcEv) (id : Nat) : q.any (eventIsFor id) = q.any (fun e => e.interceptId == id) := by
   induction q with
   | nil => rfl
@@ -179,6 +185,8 @@ theorem iinv_step (s : ISt) (op : IOp) (h : IInv s) : IInv (istep s op) := by
       left
       simp only [istep, IcMgr.eventPending, hq]
       exact regen_covers s.disk.held s.disk.queue h.wd kv hkv
+  | crashRebuild =>
+    refine ⟨?_, h.wd, ?_⟩ <;> intro kv hkv <;> simp [istep, reloadI_reconstruct] at hkv
 
 theorem irun_inv (ops : List IOp) : IInv (irun ops) := by
   unfold irun
